@@ -202,7 +202,7 @@ fn mutate(mut bytes: Vec<u8>, other: &[u8], muts: &[Mutation], classes: &mut Vec
                 if bytes.len() >= 32 {
                     let wo = u64::from_le_bytes(bytes[16..24].try_into().unwrap()) as usize;
                     let ws = u64::from_le_bytes(bytes[24..32].try_into().unwrap()) as usize;
-                    if ws >= 16 && wo + ws <= bytes.len() {
+                    if ws >= 16 && wo.checked_add(ws).is_some_and(|e| e <= bytes.len()) {
                         // record headers sit at the start of the region and after each record: aim at
                         // the first 4 KiB where the live records are
                         let i = wo + ((*pos as usize * ws.min(4096)) >> 16) / 4 * 4;
